@@ -30,6 +30,8 @@ def load_known():
         for k in json.load(open(p)):
             if k.get("status") == "known":
                 known.setdefault(k["id"], k)
+            else:
+                known.pop(k["id"], None)      # recorded as fixed here: if it comes back it is a violation, whatever the merged file still says
     return known
 
 
